@@ -118,10 +118,11 @@ func (s *Session) VerifAcctView() VerifAcctView {
 		Closed:     s.closeRequested.Load(),
 		Registered: s.uploadBytes != nil && s.downloadBytes != nil,
 		UnreadLen:  len(s.unreadBuf),
-		SendQueue:  s.sendQueue.Len(),
 	}
+	// the stream output loop holds oLock while it takes segments out of sendQueue and writes them
 	s.oLock.Lock()
 	v.Status = uint8(s.status)
+	v.SendQueue = s.sendQueue.Len()
 	s.oLock.Unlock()
 	s.recvQueue.Ascend(func(iter *segment) bool {
 		v.QueueLens = append(v.QueueLens, len(iter.payload))
